@@ -24,5 +24,16 @@ Theorem C12_limit_fires : forall l d now', wh_next_deadline (mkWheel l 0%N) = So
   exists e, In e (fst (wh_expire (length l) l now')) /\ w_dl e = d.
 Proof. exact limit_fires. Qed.
 
+(* the earliest deadline that bounds the wait is that of a LIVE arming: after a timer was cancelled (disable, remove, the
+   unregister half of update/enable) the next deadline is the earliest one among the other armings, or none if there is no
+   other - the cancelled arming no longer shortens any wait. Counters are unique in the wheel except after the
+   stale-batch-event corner of finding F5 (see C05) *)
+Theorem C12_cancelled_arming_never_shortens_wait : forall w c d, NoDup (map w_ctr (wh_heap w)) -> wh_next_deadline (wh_cancel w c) = Some d ->
+  exists e, In e (wh_heap w) /\ w_ctr e <> c /\ w_dl e = d /\ forall e', In e' (wh_heap w) -> w_ctr e' <> c -> d <= w_dl e'.
+Proof. exact wh_next_after_cancel. Qed.
+Theorem C12_no_other_arming_no_deadline : forall w c, NoDup (map w_ctr (wh_heap w)) -> wh_next_deadline (wh_cancel w c) = None ->
+  forall e, In e (wh_heap w) -> w_ctr e = c.
+Proof. exact wh_next_none_after_cancel. Qed.
+
 Example C12_nonvacuous : eff_timeout (Some 400) false (Some 1100) 1000 = Some 100 /\ eff_timeout None false (Some 900) 1000 = Some 0.
 Proof. split; reflexivity. Qed.
